@@ -74,6 +74,10 @@ def cases(tier, seed):
     for fk in ("const_axis", "const", "time"):
         for carrier in ("pm", "rb"):
             out.append({"kind": "force", "carrier": carrier, "fkind": fk, "xi": None})
+    # the same loads handed over as plain Python lists / tuples (constant, or returned by the callable of t)
+    for fk in ("const_list", "const_tuple", "time_list"):
+        for carrier in ("pm", "rb"):
+            out.append({"kind": "force", "carrier": carrier, "fkind": fk, "xi": None})
     for fk in ("const", "time"):
         for carrier, xis in (("rod:Quaternion:1", (0.0, 0.37, 1.0)), ("rod:Quaternion:2", (0.5, 0.81)),
                              ("rod:R12:1", (0.0, 0.37)), ("rod:SE3:1", (0.5, 1.0))):
